@@ -24,12 +24,15 @@ pub const TAG_LIMITS: u64 = 9600;
 pub const TAG_PEER: u64 = 9601;
 pub const TAG_WRAPPED: u64 = 9602;
 
+#[path = "c06_sock.rs"]
+mod sock;
+
 thread_local! {
     static WRAP: Cell<bool> = const { Cell::new(false) };
 }
 
 pub fn is_tagged(c: &[u64]) -> bool {
-    matches!(c.first(), Some(&TAG_LIMITS) | Some(&TAG_PEER) | Some(&TAG_WRAPPED))
+    matches!(c.first(), Some(&TAG_LIMITS) | Some(&TAG_PEER) | Some(&TAG_WRAPPED) | Some(&sock::TAG_SOCK))
 }
 
 /// Called by `apply` at the end of every manager step: the calls made on ConnectionLimits during it.
@@ -732,6 +735,10 @@ impl Streams {
                 Some((p, s, ops)) => (c.to_vec(), run_peer(&self.peers, p, &s, &ops)),
                 None => (c.to_vec(), vec![0]),
             },
+            sock::TAG_SOCK => match sock::dec_case(c) {
+                Some((tr, conns)) => (c.to_vec(), sock::run(tr, &conns)),
+                None => (c.to_vec(), vec![0]),
+            },
             _ => wrapped_stored(rt, c),
         }
     }
@@ -740,10 +747,15 @@ impl Streams {
     pub fn tables(&self) -> Vec<(Vec<u64>, Vec<u64>)> {
         let mut v = limits_table();
         v.extend(peer_table(&self.peers));
+        v.extend(sock::table());
         v
     }
 
     pub fn generated(&self, rt: &Runtime, rng: &mut Rng, thorough: bool, i: u64) -> (Vec<u64>, Vec<u64>) {
+        // real sockets are slow (handshakes, 150 ms of watching every accepted connection)
+        if i % (if thorough { 2000 } else { 250 }) == 77 {
+            return sock::generated(rng);
+        }
         match i % 8 {
             3 => limits_generated(rng, thorough),
             6 => peer_generated(&self.peers, rng, thorough),
